@@ -46,3 +46,59 @@ pub fn small_error(k: u8) -> Error {
         _ => Error::new(ErrorCode::UndefinedHeader),
     }
 }
+
+/// Minimal array-backed formatter (growable semantics up to 16 bytes, or a hard capacity):
+/// keeps allocator code out of harnesses whose subject is not the buffer.
+pub struct ArrFmt {
+    pub bytes: [u8; 16],
+    pub len: usize,
+    pub cap: usize,
+}
+impl ArrFmt {
+    pub fn new(cap: usize) -> Self {
+        ArrFmt { bytes: [0; 16], len: 0, cap }
+    }
+}
+impl Formatter for ArrFmt {
+    fn push_str(&mut self, s: &[u8]) -> Result<()> {
+        if self.len + s.len() > self.cap || self.len + s.len() > 16 {
+            return Err(Error::new(ErrorCode::OutOfMemory));
+        }
+        let mut i = 0;
+        while i < s.len() {
+            self.bytes[self.len] = s[i];
+            self.len += 1;
+            i += 1;
+        }
+        Ok(())
+    }
+    fn push_byte(&mut self, b: u8) -> Result<()> {
+        if self.len >= self.cap || self.len >= 16 {
+            return Err(Error::new(ErrorCode::OutOfMemory));
+        }
+        self.bytes[self.len] = b;
+        self.len += 1;
+        Ok(())
+    }
+    fn as_slice(&self) -> &[u8] {
+        &self.bytes[..self.len]
+    }
+    fn clear(&mut self) {
+        self.len = 0
+    }
+    fn len(&self) -> usize {
+        self.len
+    }
+    fn message_start(&mut self) -> Result<()> {
+        Ok(())
+    }
+    fn message_end(&mut self) -> Result<()> {
+        self.push_byte(b'\n')
+    }
+    fn response_unit(&mut self) -> Result<ResponseUnit> {
+        if !self.is_empty() {
+            self.push_byte(b';')?;
+        }
+        Ok(scpi::parser::response::verif_hook::unit(self))
+    }
+}
